@@ -80,8 +80,6 @@ func init() {
 
 // ---- reflect: only ValueOf(x).Kind() and .Len() (what PeriodicalExecutor.hasTasks needs, DESIGN 2.4)
 
-type reflVal struct{ v iface }
-
 func reflKind(t types.Type) uint {
 	if t == nil {
 		return 0 // Invalid
@@ -146,26 +144,3 @@ func reflKind(t types.Type) uint {
 	panic(unsupported{"reflect.Kind of " + t.String()})
 }
 
-func init() {
-	reg("reflect.ValueOf", func(fr *frame, a []value) value {
-		return reflVal{a[0].(iface)}
-	})
-	reg("(reflect.Value).Kind", func(fr *frame, a []value) value {
-		return reflKind(a[0].(reflVal).v.t)
-	})
-	reg("(reflect.Value).Len", func(fr *frame, a []value) value {
-		switch x := a[0].(reflVal).v.v.(type) {
-		case []value:
-			return len(x)
-		case array:
-			return len(x)
-		case string:
-			return len(x)
-		case *gmap:
-			return x.len()
-		case *channel:
-			return x.length()
-		}
-		panic(unsupported{"reflect.Value.Len of this kind"})
-	})
-}
